@@ -74,6 +74,14 @@ Theorem C16_admin_delete_disconnects : forall q cs k c,
 Proof. exact admin_delete_disconnects. Qed.
 Print Assumptions C16_admin_delete_disconnects.
 
+(** the admin delete is "close the registered connection" followed by "unregister", and the unregister step
+    removes only the connection that was looked up: a connection that took the id in between stays registered *)
+Theorem C16_admin_unregister_guarded :
+  (forall q cs, cstep q cs CAdminDelete = admin_end (reg cs) (admin_begin cs)) /\
+  (forall cs k looked_up, reg cs = Some k -> looked_up <> Some k -> admin_end looked_up cs = cs).
+Proof. exact (conj admin_two_step admin_unregister_guarded). Qed.
+Print Assumptions C16_admin_unregister_guarded.
+
 (** a registration ends only by that connection's own teardown, a later CONNECT for the id, or an admin delete *)
 Theorem C16_registration_survives : forall es k e,
   let cs := crun ideal cstate0 es in
